@@ -22,6 +22,7 @@
 
 static sslKeys_t *g_srvKeys;
 static int g_stripAll;
+static int g_require = 1;
 
 static void legacyServerSni(void *p, char *host, int32 hostLen,
         sslKeys_t **newKeys)
@@ -68,7 +69,7 @@ static int run(int stripAll, int *clientEms, int *alertAtServer)
     matrixSslRegisterSNICallback(srv, legacyServerSni);
 
     co.versionFlag = SSL_FLAGS_TLS_1_2;
-    co.extendedMasterSecret = 1;        /* REQUIRE extended master secret */
+    co.extendedMasterSecret = g_require; /* 1: REQUIRE extended master secret */
     matrixSslNewHelloExtension(&ext, NULL);
     matrixSslCreateSNIext(NULL, (unsigned char *) "localhost", 9, &sni, &sniLen);
     matrixSslLoadHelloExtension(ext, sni, sniLen, EXT_SNI);
@@ -110,6 +111,17 @@ int main(void)
     }
     printf("  -> client refused (handshake_failure): requirement enforced\n");
 
+    printf("sanity: extension-less ServerHello, client does NOT require EMS\n");
+    g_require = 0;
+    done = run(1, &ems, &alert);
+    g_require = 1;
+    if (!done)
+    {
+        printf("honest extension-less handshake failed (alert=%d)\n", alert);
+        return 2;
+    }
+    printf("  -> completes (nothing was required)\n");
+
     printf("test: same server, ServerHello without any extension block\n");
     done = run(1, &ems, &alert);
     if (done && ems == 0)
@@ -120,6 +132,7 @@ int main(void)
                "has an extension block\n");
         return 1;
     }
-    printf("no violation\n");
+    printf("OK: the client refused the extension-less ServerHello as well "
+           "(alert %d at server)\n", alert);
     return 0;
 }
